@@ -440,9 +440,14 @@ func (e *Exec) conv(dst, src types.Type, x Value) Value {
 				}
 				t, ok := e.ptrInts[k]
 				if !ok {
-					t = e.tb.Var(fmt.Sprintf("addr!%d", len(e.ptrInts)), sortBV(64))
+					if e.symAddrs {
+						t = e.tb.Var(fmt.Sprintf("addr!%d", len(e.ptrInts)), sortBV(64))
+						e.assume(e.tb.Not(e.tb.Eq(t, e.tb.BV(64, 0))))
+					} else {
+						// deterministic pseudo-address (distinct per object, stable across re-executions)
+						t = e.tb.BV(64, 0xc000100000+uint64(len(e.ptrInts))*4099*16)
+					}
 					e.ptrInts[k] = t
-					e.assume(e.tb.Not(e.tb.Eq(t, e.tb.BV(64, 0))))
 				}
 				return e.tb.Resize(t, dw, false)
 			}
